@@ -2,6 +2,7 @@
 
 Nothing here is counted as proved: every entry is a bounded check with a stated input family."""
 import math
+import os
 
 from pyvc.run import native
 
@@ -282,6 +283,24 @@ def _sim_real_check(a):
             return False, {"why": f"hourly after hybrid raised {type(e).__name__}: {e}", "signature": "hourly-after-hybrid"}
         if got != hr_ref:
             return False, {"why": "hourly result depends on an earlier hybrid simulation", "got": got, "want": hr_ref}
+        # frame: the simulations leave the load series they were given as it is (list or float array; arrays only for horizons of at most a year,
+        # where nothing is repeated), so a second simulation and the loads table of the output see the loads the user supplied
+        import numpy as np
+
+        for as_array in ((False, True) if a.get("months", 24) <= 12 else (False,)):
+            g5 = _make_ghe(a)
+            given = [float(x) for x in g5.hourly_extraction_ground_loads]
+            if as_array:
+                g5.hourly_extraction_ground_loads = np.array(given, dtype=float)
+            g5.simulate(method=HR)
+            g5.simulate(method=HY)
+            after = g5.hourly_extraction_ground_loads
+            if len(after) != len(given) or any(float(x) != y for x, y in zip(after, given)):
+                k = next((i for i, (x, y) in enumerate(zip(after, given)) if float(x) != y), None)
+                return False, {"why": "simulate() modified the hourly load series it was given" + (" (float array)" if as_array else " (list)"), "signature": "loads-modified-in-place",
+                               "length_before": len(given), "length_after": len(after), "first_changed_hour": k}
+            if g5.simulate(method=HR) != hr_ref:
+                return False, {"why": "a second hourly simulation on the same object gives another result" + (" (float array loads)" if as_array else ""), "signature": "hourly-twice"}
     # the formula holds for the object's current state: a ground property changed in place between two simulations
     # must give what a freshly built object with that property gives (no stale short-time response / t_s)
     g4 = _make_ghe(a)
@@ -310,7 +329,7 @@ def _sim_real_gen(rng):
 
 
 native(f"{G}:GHE.simulate", _sim_real_check, _sim_real_gen, None,
-       bound="real GHE objects (1 or 4 boreholes, 3 pipe types, 12/18/24 months): hybrid/hourly results independent of earlier simulate calls; zero load -> ground temperature exactly; ground temperature shift")
+       bound="real GHE objects (1 or 4 boreholes, 3 pipe types, 12/18/24 months): hybrid/hourly results independent of earlier simulate calls; load series (list, and float array for 12-month horizons) unchanged by simulate; zero load -> ground temperature exactly; ground temperature shift")
 
 
 # ---- C13: the design is a function of the physical inputs, not of the call history (bounded, real manager) --------------------------
@@ -346,6 +365,26 @@ def _design_of(g):
             "tracker": [[float(v) if isinstance(v, (int, float)) else str(v) for v in row[1:]] for row in g._search.searchTracker]}
 
 
+def _fresh_design(a):
+    """the design of build_manager(a).find_design() computed by a fresh interpreter (no module state of this process); None when the helper process fails"""
+    import json
+    import subprocess
+    import sys
+
+    verif = os.path.dirname(os.path.dirname(os.path.abspath(__file__)))
+    repo = os.environ.get("VERIF_REPO", "/repo")
+    code = ("import sys, json; sys.path[:0] = [%r, %r]; from contracts.realruns import build_manager, _design_of; a = json.loads(sys.stdin.read()); "
+            "m = build_manager(a); m.find_design(); d = _design_of(m); print('FRESH-DESIGN ' + json.dumps({k: d[k] for k in ('field', 'H', 'hp_eft')}))") % (repo, verif)
+    try:
+        out = subprocess.run([sys.executable, "-c", code], input=json.dumps(a), capture_output=True, text=True, timeout=600)
+    except Exception:
+        return None
+    for line in out.stdout.splitlines():
+        if line.startswith("FRESH-DESIGN "):
+            return json.loads(line[len("FRESH-DESIGN "):])
+    return None
+
+
 def _history_check(a):
     a = {k: v for k, v in a.items() if k != "pipe"}
     ref_m = build_manager(a)
@@ -369,7 +408,21 @@ def _history_check(a):
     bad = differs(_design_of(ref_m), "set_design-and-find_design-again")
     if bad:
         return False, bad
-    # 3. an unrelated design earlier in the same process, 4. setters permuted and another nominal borehole height
+    # 3. a sibling design in this process that differs from the one just computed ONLY in a thermal property (same field domain, same heights, same flow, same
+    #    loads): it must come out exactly as in a fresh interpreter that has never seen the first design
+    prop_name, prop_val = (("k_grout", 2.1), ("k_soil", 3.0), ("k_pipe", 0.62), ("rho_cp_soil", 3.1e6))[a.get("perm", 1) % 4]
+    sib_args = {**a, prop_name: prop_val}
+    sib = build_manager(sib_args)
+    sib.find_design()
+    fresh = _fresh_design(sib_args)
+    if fresh is not None:
+        got = _design_of(sib)
+        for k in ("field", "H", "hp_eft"):
+            if got[k] != fresh[k]:
+                return False, {"why": f"a design computed after another design that differs only in {prop_name} is not the design a fresh interpreter computes for the same inputs: {k} differs",
+                               "history": "thermal-sibling-after-reference", "component": k, "signature": "history-dependent/thermal-sibling",
+                               "fresh": fresh[k] if k != "hp_eft" else fresh[k][:4], "got": got[k] if k != "hp_eft" else got[k][:4]}
+    # 4. an unrelated design earlier in the same process, 5. setters permuted and another nominal borehole height
     other = build_manager({**a, "kind": "cooling" if a.get("kind") != "cooling" else "heating", "scale": 3.1e4, "length": 18.0, "k_soil": 3.1, "months": 12})
     other.find_design()
     for seed, nominal in ((a.get("perm", 1), 55.5), (a.get("perm", 1) + 7, 310.0)):
@@ -387,4 +440,4 @@ def _history_gen(rng):
 
 
 native("ghedesigner.manager:GHEManager.find_design", _history_check, _history_gen, None,
-       bound="real GHEManager: reference run vs. find_design twice, set_design+find_design again, an unrelated design earlier in the process, shuffled setter order with nominal borehole heights 55.5 / 310 m: field, height and temperatures bit-identical")
+       bound="real GHEManager: reference run vs. find_design twice, set_design+find_design again, a sibling design differing only in one thermal property (grout / soil / pipe conductivity, soil heat capacity) vs. the same sibling in a fresh interpreter, an unrelated design earlier in the process, shuffled setter order with nominal borehole heights 55.5 / 310 m: field, height and temperatures bit-identical")
